@@ -126,6 +126,55 @@ GLYPH_COLLISIONS = [["a/b", "a:b", "a*b"], ["A", "a_"], ["con", "_con"], ["nul.a
                     ["g" * 300, "gshort"], ["T_h", "t_H_"], ["AE", "Ae_", "aE_"]]
 
 
+# long names of multi-byte characters: 240..320 UTF-8 bytes but far fewer than 255 characters, so the clip to 255
+# BYTES is what keeps the file name legal; bodies of 2-, 3- and 4-byte characters, optionally interleaved with
+# ASCII, behind 0..3 ASCII characters so that the clip point falls inside a character.  Every name of one font
+# gets its own first character: no two of them (nor the ASCII long names above) agree on a clipped stem, which
+# would be the separate class long_name_clash.
+MB_BODIES = ["\u00e9", "\u0436", "\u6f22", "\u5b57", "\U0001F600", "\U0001D49C"]
+MB_LEADS = list("bcdfhjkmnpqrstvwz") + ["\u00e8", "\u0431", "\u4e2d", "\u6587", "\U0001F601", "\U0001D49E"]
+
+
+def multibyte_long_names(rng, k, used_leads):
+    out = []
+    for _ in range(k):
+        free = [c for c in MB_LEADS if c not in used_leads]
+        if not free:
+            break
+        lead = rng.choice(free)
+        used_leads.add(lead)
+        body = rng.choice(MB_BODIES)
+        target = rng.randint(240, 320)
+        mixed = rng.random() < 0.4
+        n = lead + "x" * rng.randint(0, 3)
+        i = 0
+        while len(n.encode("utf-8")) < target:
+            n += body
+            i += 1
+            if mixed and i % 7 == 0:
+                n += "y"
+        out.append(n)
+    return out
+
+
+def add_multibyte_names(f, rng):
+    """adds layers and glyphs with long multi-byte names to a font (in place)"""
+    used = set()
+    have = {l["name"] for l in f["layers"]}
+    for n in multibyte_long_names(rng, rng.randint(1, 2), used):
+        if n not in have:
+            f["layers"].append({"name": n, "dir": None, "color": None, "lib": {},
+                                "glyphs": [mk_glyph("a")] if rng.random() < 0.5 else []})
+    for l in f["layers"]:
+        if rng.random() < 0.7:
+            gh = {g["name"] for g in l["glyphs"]}
+            for n in multibyte_long_names(rng, rng.randint(1, 3), used):
+                if n not in gh:
+                    l["glyphs"].append(mk_glyph(n))
+            l["glyphs"].sort(key=lambda g: g["name"])
+    return f
+
+
 def long_name_clash(font, err):
     """class predicate: the save failed with 'file name too long' and two glyph names of one layer
     (or two layer names) are longer than 240 bytes and agree on their first 240 bytes"""
@@ -160,6 +209,8 @@ def history_fonts(base_fonts, rng):
                             gh.add(n)
                             l["glyphs"].append(mk_glyph(n))
                 l["glyphs"].sort(key=lambda g: g["name"])
+        if rng.random() < 0.3:
+            add_multibyte_names(f, rng)
         out.append(f)
     return out
 
@@ -308,6 +359,19 @@ def run(ctx, known, built):
         ff = os.path.join(ctx.scratch, "special.json")
         json.dump(sp, open(ff, "w"))
         _stream(ctx, fc, "special", ctx.seed, len(sp), [], known_ids, stats, corr, fonts_file=ff)
+    # the main pool extended by long names of multi-byte characters (built directly, no API history)
+    import random as _random
+    mr = _random.Random(ctx.seed * 53 + 11)
+    n_mb = 600 if thorough else 40
+    mb = [add_multibyte_names(copy.deepcopy(f0), mr) for f0 in main_fonts[:n_mb]]
+    if mb:
+        ff = os.path.join(ctx.scratch, "multibyte.json")
+        json.dump(mb, open(ff, "w"))
+        _stream(ctx, fc, "multibyte_names", ctx.seed, len(mb), [], known_ids, stats, None, fonts_file=ff)
+        # (the model correspondence on a few of them only: long literal names are slow to elaborate)
+        ff2 = os.path.join(ctx.scratch, "multibyte_corr.json")
+        json.dump(mb[:150 if thorough else 8], open(ff2, "w"))
+        _stream(ctx, fc, "multibyte_names_corr", ctx.seed, len(mb[:150 if thorough else 8]), [], known_ids, stats, corr, fonts_file=ff2)
     ctx.note("special cases done")
     # the same abstract fonts reached through varied API histories (temporary names + rename_layer /
     # rename_glyph, decoys, remove and re-create), with names that collide in their directory / file stems
@@ -343,8 +407,17 @@ def run(ctx, known, built):
         ctx.disagreements.append({"what": "Coq development does not build; correspondence not evaluated"})
     else:
         import fontfiles_corr as ffc
+
+        def spread(items):
+            # cases with long names are slow to evaluate and come in runs (one stream after the other):
+            # deal them round-robin over the shards
+            k = 16
+            return sorted(items, key=lambda it: 0) if len(items) < 2 * k else [it for r in range(k) for it in items[r::k]]
+        corr["files"] = spread(corr["files"])
+        corr["save"] = spread(corr["save"])
+        corr["load"] = spread(corr["load"])
         items = corr["files"]
-        codes = ffc.eval_codes(ctx, "files", [e for _, e in items])
+        codes = ffc.eval_codes(ctx, "files", [e for _, e in items], shard=max(8, len(items) // 16 + 1))
         bad = [(i, c) for i, c in enumerate(codes) if c != 0]
         nd += len(bad)
         for i, c in bad[:10]:
